@@ -24,6 +24,11 @@ CHECKS = {
    "Generated block histories (reference-encoded with random representation choices, mutated, hostile templates, random bytes) are decoded by h2 and by the reference: h2 must never accept what RFC 7541 makes an error and must return the same fields; the last block is also fed through h2's real Codec whole and at every split point. Sub-spaces (all ≤2-byte Huffman inputs, all ≤2-symbol strings with every padding defect, boundary prefix integers) are enumerated exhaustively.",
    "Trusts refmodel::hpack (fixture-validated). h2 rejecting RFC-valid input is allowed by the property and only counted.",
    "DESIGN.md §3 C11"),
+ "C12": ("codec", "exploration",
+   "property-based testing: round-trip oracle — frames written through h2's Codec are parsed by an independent RFC 9113 parser, reference-serialised frames are parsed by h2 under generated read chunkings (metamorphic: whole vs chunked), oversize-frame probe",
+   "Generated frame sequences go through h2's Codec write side (scripted short writes, Pending, vectored on/off, multi-segment Buf payloads, max-frame-size changes) and must be read back identically, within the size limit, by the independent parser; reference-serialised frames of all ten types plus unknown types (all flags, padding, priority, reserved bits, CONTINUATION chains) must be parsed by h2 to the expected values for every generated read chunking, and a frame header announcing more than max_recv_frame_size must be refused with FRAME_SIZE_ERROR before any payload arrives.",
+   "Trusts refmodel::wire (round-trip self-test; must parse every byte h2 emits). Read side uses zero padding only (receivers MAY reject non-zero padding). GOAWAY debug data ≤ 1000 B as h2's callers only pass short static strings.",
+   "DESIGN.md §3 C12"),
 }
 
 NOT_YET = "check not built yet in this round (machinery in progress; see DESIGN.md §5 build order)"
@@ -60,6 +65,7 @@ def main():
         },
         "engines": [
             {"name": "hpack-enc", "path": "harness/src/eng_hpack.rs", "serves_properties": ["C10"], "kind_free_text": "proptest-driven generated histories through h2's Codec write side; strict reference HPACK decoder as oracle"},
+            {"name": "codec", "path": "harness/src/eng_codec.rs", "serves_properties": ["C12"], "kind_free_text": "h2 Codec as Sink/Stream over a scripted transport vs refmodel::wire"},
             {"name": "hpack-dec", "path": "harness/src/eng_hpack.rs", "serves_properties": ["C11"], "kind_free_text": "differential h2 decoder vs RFC 7541 reference on generated/mutated/hostile blocks; whole-vs-split through Codec; exhaustive Huffman/integer sub-spaces"},
         ],
         "checks": checks,
